@@ -87,6 +87,24 @@ def simple_specs():
     return out
 
 
+LADDER = ["2.7.18", "3", "3.7", "3.8", "3.8.0", "3.8.1", "3.8.5", "3.9", "3.9.0", "3.9.1", "3.10", "3.10.0", "3.10.2", "4", "4.0", "4.0.1"]
+
+
+def computed_specs():
+    """specifiers computed by the algebra (no source text attached, so is_simple()/str() go through the rendering
+    heuristics): every ordered pair of a ladder of bounds as a two-range union and as a bounded range
+    (seed C11b: a union wrongly recognised as `!=X.Y.*` makes from_specifier return an atom instead of None)"""
+    out = []
+    for lo, hi in itertools.product(LADDER, LADDER):
+        if Version(lo) > Version(hi):
+            continue
+        for a, b, op in ((f"<{lo}", f">={hi}", "|"), (f"<={lo}", f">{hi}", "|"), (f"<{lo}", f">{hi}", "|"),
+                         (f">={lo}", f"<{hi}", "&"), (f">{lo}", f"<={hi}", "&"), (f">={lo}", f"<={hi}", "&")):
+            x, y = parse_version_specifier(a), parse_version_specifier(b)
+            out.append((f"({a}){op}({b})", (x | y) if op == "|" else (x & y)))
+    return out
+
+
 def run_c11(run: core.Run) -> None:
     n_oracle = 0
     run.exhaustive = True
@@ -115,8 +133,7 @@ def run_c11(run: core.Run) -> None:
                     f.family = mk.known_family([f'{name} {op} "{val}"'], env)
                     run.fail(f)
     for name in ("python_version", "python_full_version"):
-        for text in simple_specs():
-            spec = parse_version_specifier(text)
+        for text, spec in [(t, parse_version_specifier(t)) for t in simple_specs()] + computed_specs():
             try:
                 m = MarkerExpression.from_specifier(name, spec)
             except Exception as e:  # noqa: BLE001
@@ -176,7 +193,7 @@ def marker_pool(rng, n):
         s = str(m)
         if s and s != "<empty>":
             try:
-                out.append((s, mk.parse_marker(s)))
+                out.append((s, timed(lambda: mk.parse_marker(s))))
             except Exception:  # noqa: BLE001
                 pass
     return out
@@ -320,7 +337,7 @@ def run_c14(run: core.Run, n_spec: int, n_marker: int) -> None:
                 run.fail(core.Failure(f"mlaw|{name}|{'|'.join(ts)}", f"marker law {name} raised {type(e).__name__}",
                                       {"op": "mlaw", "law": name, "texts": ts}))
                 continue
-            run.add(core.Case("marker.law", "m.expr\t" + le.tokens(), enc_marker(l) + "\t" + str(l)))
+            run.add(core.Case("marker.law", "m.expr\t" + le.tokens(), enc_marker(l) + "\t" + str(l), ctx=ts))
             for env in envs:
                 n_oracle += 1
                 if ev(l, env) != ev(r, env):
@@ -332,6 +349,61 @@ def run_c14(run: core.Run, n_spec: int, n_marker: int) -> None:
                         run.fail(f)
                         continue
                     run.fail(f)
+                    break
+    # exhaustive: absorption over every ordered pair of every single-layer pool (seed C14: `|` of two grouped `!=` atoms)
+    pair_idx = 0
+    for var, pool, penvs in pools:
+        envs = [dict(base_env, **e) for e in penvs]
+        leaves = {t: E("leaf", t) for t in pool}
+        for ta, tb in itertools.product(pool, repeat=2):
+            pair_idx += 1
+            if not run.mine(pair_idx):
+                continue
+            La, Lb = leaves[ta], leaves[tb]
+            for name, le in (("absorb1", E("and", La, E("or", La, Lb))), ("absorb2", E("or", La, E("and", La, Lb)))):
+                try:
+                    l, r = timed(le.run, 3), timed(La.run, 3)
+                except Timeout:
+                    skips += 1
+                    continue
+                except Exception as e:  # noqa: BLE001
+                    run.fail(core.Failure(f"mlaw|{name}|{ta}|{tb}", f"marker law {name} raised {type(e).__name__}",
+                                          {"op": "mlaw", "law": name, "texts": [ta, tb]}))
+                    continue
+                for env in envs:
+                    n_oracle += 1
+                    if ev(l, env) != ev(r, env) and not mk.known_family([ta, tb], env):
+                        run.fail(core.Failure(f"mlaw|{name}|{ta}|{tb}", f"marker law {name} fails on {[ta, tb]}: {l!r} vs {r!r}",
+                                              {"op": "mlaw", "law": name, "texts": [ta, tb]}))
+                        break
+    # exhaustive: every triple of the rendering-heuristic ladder pool under the three-operand laws (the grouping decides
+    # whether two atoms are merged into one through a shortened rendering)
+    var, pool, penvs = pools[-1]
+    envs = [dict(base_env, **e) for e in penvs]
+    leaves = {t: E("leaf", t) for t in pool}
+    for idx, ts in enumerate(itertools.product(pool, repeat=3)):
+        if not run.mine(idx):
+            continue
+        La, Lb, Lc = (leaves[t] for t in ts)
+        laws = [("assoc|", E("or", E("or", La, Lb), Lc), E("or", La, E("or", Lb, Lc))),
+                ("assoc&", E("and", E("and", La, Lb), Lc), E("and", La, E("and", Lb, Lc))),
+                ("dist1", E("and", La, E("or", Lb, Lc)), E("or", E("and", La, Lb), E("and", La, Lc))),
+                ("dist2", E("or", La, E("and", Lb, Lc)), E("and", E("or", La, Lb), E("or", La, Lc)))]
+        for name, le, re_ in laws:
+            try:
+                l, r = timed(le.run, 3), timed(re_.run, 3)
+            except Timeout:
+                skips += 1
+                continue
+            except Exception as e:  # noqa: BLE001
+                run.fail(core.Failure(f"mlaw|{name}|{'|'.join(ts)}", f"marker law {name} raised {type(e).__name__}",
+                                      {"op": "mlaw", "law": name, "texts": list(ts)}))
+                continue
+            for env in envs:
+                n_oracle += 1
+                if ev(l, env) != ev(r, env) and not mk.known_family(list(ts), env):
+                    run.fail(core.Failure(f"mlaw|{name}|{'|'.join(ts)}", f"marker law {name} fails on {list(ts)}: {l!r} vs {r!r}",
+                                          {"op": "mlaw", "law": name, "texts": list(ts)}))
                     break
     run.extra.update(oracle_evaluations=n_oracle, time_budget_skips=skips)
 
@@ -365,8 +437,9 @@ def cold_run(exprs, hashseed: int):
     return json.loads(p.stdout)
 
 
-def history(rng, length):
-    """ops with equal-but-differently-built markers recurring"""
+def history(rng, length, all_twins=False):
+    """ops with equal-but-differently-built markers recurring; `all_twins`: every twin pair with every partner under both
+    operators, back to back (deterministic part: a cache keyed too coarsely shows as warm != model on the second twin)"""
     twins = [('"3.8" < python_version', 'python_version > "3.8"'), ('python_version >= "3.10"', 'python_version >= "3.10.0"'),
              ('python_version > "3.8"', 'python_version > "3.8.0"'), ('python_version == "3.8"', 'python_version == "3.8.0"'),
              ('python_full_version >= "3.8.1"', 'python_full_version >= "3.8.1.0"'), ('python_version != "3.9"', 'python_version != "3.9.0"'),
@@ -380,6 +453,12 @@ def history(rng, length):
     # the same operation on equal-but-differently-built operands, back to back
     partners = ['python_version == "3.8"', 'python_version >= "3.8"', 'python_full_version >= "3.8.1"', 'python_version != "3.8"',
                 'python_version < "3.10"', 'python_full_version < "3.9.5"', 'os_name == "posix"', 'os_name == "java"']
+    if all_twins:
+        for (a, b), part, kind in itertools.product(twins, partners, ("and", "or")):
+            for x, y in ((a, b), (b, a)):
+                ops.append(E(kind, E("leaf", x), E("leaf", part)))
+                ops.append(E(kind, E("leaf", y), E("leaf", part)))
+                ops.append(E(kind, E("leaf", y), E("leaf", part.replace('"3.8"', '"3.8.0"'))))
     for a, b in rng.sample(twins, 3):
         part = rng.choice(partners)
         kind = rng.choice(["and", "or"])
@@ -416,7 +495,7 @@ def run_c10(run: core.Run, n_hist: int, length: int, seeds=(0, 1, 2)) -> None:
     for h in range(n_hist):
         for f in (dm.parse_marker, ds._merge_single_markers, du.cnf, du.dnf):
             f.cache_clear()
-        ops = history(rng, length)
+        ops = history(rng, length, all_twins=(h == 0 and run.first))
         warm = []
         for e in ops:
             try:
@@ -446,9 +525,76 @@ def run_c10(run: core.Run, n_hist: int, length: int, seeds=(0, 1, 2)) -> None:
     run.extra.update(oracle_evaluations=n_oracle, time_budget_skips=skips)
 
 
+def split_atoms(texts):
+    out = []
+    for t in texts:
+        for a in re.split(r"\s+(?:and|or)\s+", t.replace("(", " ").replace(")", " ")):
+            a = a.strip()
+            if a and a not in out:
+                out.append(a)
+    return out
+
+
+def neighbour_atoms(atoms):
+    """atoms on the same version variables with bounds next to / between the given ones"""
+    out = []
+    for name in ("python_full_version", "python_version", "platform_release"):
+        vals = set()
+        for a in atoms:
+            m = re.fullmatch(rf'{name} (?:==|!=|<=|>=|<|>|~=) "(\d+(?:\.\d+){{0,2}})"', a)
+            if m:
+                xs = [int(x) for x in m.group(1).split(".")] + [0, 0]
+                X, Y, Z = xs[:3]
+                vals |= {(X, Y, Z + 1), (X, Y + 1, 0), (X, Y + 1, 2)} | ({(X, Y - 1, 9)} if Y else set())
+        for X, Y, Z in sorted(vals):
+            v = f"{X}.{Y}" if name == "python_version" else f"{X}.{Y}.{Z}"
+            for op in (">=", "<"):
+                t = f'{name} {op} "{v}"'
+                if t not in out and t not in atoms:
+                    out.append(t)
+    return out
+
+
+def search_c14(run: core.Run) -> None:
+    """the laws compare the implementation with itself, so a wrong merge shows only for a triple whose grouping
+    decides whether the merge happens: around each marker result that differs from the model, every law over all
+    triples of the atoms involved and of neighbouring atoms on the same variables"""
+    by_line = {c.line: c for c in run.cases if c.ctx is not None and c.stream == "marker.law"}
+    done = 0
+    for d in run.disagreements:
+        c = by_line.get(d["op"])
+        if c is None or done >= 6:
+            continue
+        done += 1
+        atoms = split_atoms(c.ctx)
+        pool = (atoms + neighbour_atoms(atoms))[:9]
+        envs = mk.envs_for(pool, run.rng, 60)
+        for ts in itertools.product(pool, repeat=3):
+            La, Lb, Lc = (E("leaf", t) for t in ts)
+            laws = [("assoc|", E("or", E("or", La, Lb), Lc), E("or", La, E("or", Lb, Lc))),
+                    ("assoc&", E("and", E("and", La, Lb), Lc), E("and", La, E("and", Lb, Lc))),
+                    ("dist1", E("and", La, E("or", Lb, Lc)), E("or", E("and", La, Lb), E("and", La, Lc))),
+                    ("dist2", E("or", La, E("and", Lb, Lc)), E("and", E("or", La, Lb), E("or", La, Lc)))]
+            for name, le, re_ in laws:
+                try:
+                    l, r = timed(le.run, 2), timed(re_.run, 2)
+                except Exception:  # noqa: BLE001
+                    continue
+                for env in envs:
+                    if mk.known_family(list(ts), env):
+                        continue
+                    if ev(l, env) != ev(r, env):
+                        run.fail(core.Failure(f"mlaw|{name}|{'|'.join(ts)}", f"marker law {name} fails on {list(ts)}: {l!r} vs {r!r}",
+                                              {"op": "mlaw", "law": name, "texts": list(ts)}))
+                        return
+
+
 def search(prop: str, run: core.Run) -> None:
     """C10: the model has no caches, so a warm result that differs from the model is compared with the
     implementation's own cold result; if they differ, that history is the failing input"""
+    if prop == "C14":
+        search_c14(run)
+        return
     if prop != "C10":
         return
     by_line = {}
@@ -468,6 +614,9 @@ def search(prop: str, run: core.Run) -> None:
                                   {"op": "history", "history": [e.to_json() for e in ops[:i + 1]], "hashseed": 0}))
 
 
+SHARDED = ("C14", "C10")   # thorough tier runs these over worker processes (harness/check.py)
+
+
 def run_prop(prop: str, run: core.Run) -> None:
     quick = run.tier == "quick"
     if prop == "C11":
@@ -480,11 +629,11 @@ def run_prop(prop: str, run: core.Run) -> None:
         run_c13(run, 120 if quick else 400)
     elif prop == "C14":
         run.rule = "random triples of canonical specifiers over 3 points (13 laws, real ==) and of markers (10 laws, evaluation)"
-        run_c14(run, 250 if quick else 6000, 160 if quick else 2500)
+        run_c14(run, 250 if quick else run.size(16000), 160 if quick else run.size(8000))
     else:
         run.rule = ("operation histories (parse/&/| with recurring equal-but-differently-built markers and re-rendered results): "
                     "warm in-process results vs the cache-free model, and probes alone in fresh interpreters under 3 hash seeds")
-        run_c10(run, 12 if quick else 150, 25 if quick else 40)
+        run_c10(run, 12 if quick else run.size(320), 25 if quick else 40)
 
 
 def replay(data: dict) -> bool:
@@ -518,6 +667,26 @@ def replay(data: dict) -> bool:
             return not (lf() == rf())
         except Exception:  # noqa: BLE001
             return True
+    if r["op"] == "mlaw":
+        ts = r["texts"]
+        La, Lb, Lc = (E("leaf", t) for t in (ts + ts[:1] * 3)[:3])
+        laws = {"comm&": (E("and", La, Lb), E("and", Lb, La)), "comm|": (E("or", La, Lb), E("or", Lb, La)),
+                "assoc&": (E("and", E("and", La, Lb), Lc), E("and", La, E("and", Lb, Lc))),
+                "assoc|": (E("or", E("or", La, Lb), Lc), E("or", La, E("or", Lb, Lc))),
+                "idem&": (E("and", La, La), La), "idem|": (E("or", La, La), La),
+                "absorb1": (E("and", La, E("or", La, Lb)), La), "absorb2": (E("or", La, E("and", La, Lb)), La),
+                "dist1": (E("and", La, E("or", Lb, Lc)), E("or", E("and", La, Lb), E("and", La, Lc))),
+                "dist2": (E("or", La, E("and", Lb, Lc)), E("and", E("or", La, Lb), E("or", La, Lc)))}
+        le, re_ = laws[r["law"]]
+        try:
+            l, rr = timed(le.run, 10), timed(re_.run, 10)
+        except Exception:  # noqa: BLE001
+            return True
+        import random
+        for env in mk.envs_for(ts, random.Random(0), 200):
+            if not mk.known_family(ts, env) and ev(l, env) != ev(rr, env):
+                return True
+        return False
     if r["op"] == "markereq":
         a, b = mk.parse_marker(r["a"]), mk.parse_marker(r["b"])
         eq = (a == b)
@@ -539,7 +708,12 @@ def replay(data: dict) -> bool:
         env = {"python_full_version": value if len(parts) == 3 else value + ".0", "python_version": ".".join(parts[:2])}
         return (value in m.specifier) != ev(m, env)
     if r["op"] == "from":
-        spec = parse_version_specifier(r["spec"])
+        mm = re.fullmatch(r"\((.*)\)([|&])\((.*)\)", r["spec"])
+        if mm:     # a specifier computed by the algebra (computed_specs)
+            x, y = parse_version_specifier(mm.group(1)), parse_version_specifier(mm.group(3))
+            spec = (x | y) if mm.group(2) == "|" else (x & y)
+        else:
+            spec = parse_version_specifier(r["spec"])
         m = MarkerExpression.from_specifier(r["name"], spec)
         if m is None or "value" not in r:
             return False
